@@ -303,6 +303,8 @@ package lib
 
 // C08 "forgotten entirely": removing an index removes its timeout record (and the registration, and an emptied set).
 //@ func (r *RegisteredDecoys) removeRegistration(index string) *regExpireLogMsg
+// C17 "expiry records omit the registrant address"
+//@   neverreads @C17: DecoyRegistration.registrationAddr
 //@   requires r != nil && !held(&r.m) && rheld(&r.m) == 0
 //@   ensures @C08: result != nil ==> !(index in r.decoysTimeouts)
 // "forgotten entirely": if the index names a tracked registration, that registration is gone afterwards
@@ -417,7 +419,10 @@ package lib
 
 // bookkeeping / formatting around the decision (frames only; none of them touches the registry lock in this thread:
 // GetConnectingTransports takes and releases the read lock before returning)
+// C17 "registration digests omit the registrant address": the digest never touches the registrant address field
+// (the frame stays an assumption; this structural clause is checked)
 //@ func (reg *DecoyRegistration) String() string
+//@   neverreads @C17: DecoyRegistration.registrationAddr
 //@   assigns nothing
 //@   trusted
 //@ func (s *RegistrationStats) AddRegStats(reg *DecoyRegistration)
